@@ -90,6 +90,21 @@ Definition nb_front (site : nat) (nb : neighbors) : res :=
 Definition nb_row (site : nat) (nb : neighbors) (N idx k : Z) (f : Z -> Z -> res) : res :=
   forZ k (fun i => nb_get site nb idx i (fun w => chk (S site) w N ;; f i w)).
 
+(* ---------------------------------------------------------------- neighbors.hpp *)
+(* find_neighbors_bruteforce_impl for one query: N-1 distance records, nth_element at position k,
+   the first k records are copied *)
+Definition brute_force_query (N k : Z) : res :=
+  blk 151 0 k (N - 1) ;;                                       (* nth_element(begin, begin + k, end) *)
+  forZ k (fun j => chk 152 j (N - 1)).                         (* distances.begin() + j, j < k *)
+
+(* find_neighbors_vptree_impl / covertree: k + 1 results are requested from a structure of N items *)
+Definition tree_query (N k : Z) : res := blk 153 0 (k + 1) N.
+
+(* find_neighbors: k = min(k, N - 1), then one query per sample *)
+Definition find_neighbors_model (brute : bool) (N k : Z) : res :=
+  let k' := if N - 1 <? k then N - 1 else k in
+  forZ N (fun _ => if brute then brute_force_query N k' else tree_query N k').
+
 (* ---------------------------------------------------------------- variants *)
 Record variant := {
   v_f6 : bool;    (* HLLE column counter  ct += d - j            (false: ct += ct + d - j) *)
